@@ -1,6 +1,7 @@
 import LoraVerif.Gen.CmdTables
 import LoraVerif.Lemmas.MacCmdSetAgree
 import LoraVerif.Lemmas.MacCmdBuild
+import LoraVerif.Lemmas.MacCmdGrowing
 import LoraVerif.Lemmas.HexTextLemmas
 import LoraVerif.Lemmas.FieldAlgebra
 /-!
@@ -23,8 +24,11 @@ specification = `Spec/MacCmdSpec` field layouts, `Spec/HexTextSpec`):
 * **sequences**: `parse_buildSeq`, `build_mac_commands_writes_concatenation`, framing lemmas for the six generated tables;
 * **text forms**: `newtype_text_roundtrip`, `key_text_roundtrip`, `eui_text_roundtrip` and equality with MSB-first hex.
 
-Not proved (correspondence only): the two growing creators `EchoIncPayloadAnsCreator::payload` and
-`McGroupStatusAnsCreator::{nb_total_groups, push}` (their parsers' accessors are covered by (C)).
+The two growing creators are treated on their own invariants: `echo_builder` (any state: built bytes = CID ‖ first 241 octets
+each + 1 = the specification's answer) and `group_status_builder` (`push` refuses ids ≥ 4 and repeated groups, otherwise
+appends the item and sets the mask bit; `nb_total_groups` touches only its three bits; `build` returns CID, status and the
+items; nothing panics).  Not proved, correspondence only: that the items accessor of a parsed McGroupStatusAns returns the
+pushed (id, address) pairs in order for an arbitrary number of pushes (the accessor side is (C) for 0..4 items).
 -/
 set_option linter.unusedSimpArgs false
 open MacCmd
@@ -142,6 +146,36 @@ theorem linkADRReq_step_roundtrip (wrap : Bytes → Bytes) (cid b0 b1 b2 b3 : Na
   · exact fin _ _ (set_LinkADRReq_set_tx_power wrap cid b0 b1 b2 b3 v h0 h1 h2 h3 hv) (fun r p' h => shape 0 4 (.refuse "InvalidTxPower") (.n v) r p' h)
   · exact fin _ _ (set_LinkADRReq_set_redundancy wrap cid b0 b1 b2 b3 v h0 h1 h2 h3 hv) (fun r p' h => shape 24 8 .mask (.n v) r p' h)
   · exact fin _ _ (set_LinkADRReq_set_channel_mask wrap cid b0 b1 b2 b3 c0 c1 h0 h1 h2 h3 g0 g1) (fun r p' h => shape 8 16 .mask (.bytes [c0, c1]) r p' h)
+
+/-! ## the growing creators -/
+
+/-- **EchoIncPayloadAnsCreator** in any state (also after an earlier, longer payload): `payload(b)` then `build()` gives the CID
+followed by the first 241 octets of `b`, each incremented modulo 256 — exactly the specification's answer; a longer
+argument is truncated, never a panic (fix C19-0002). -/
+theorem echo_builder (cid : Nat) (tail : Bytes) (ht : tail.length = 241) (cnt : Nat) (b : Bytes) (wrap : Bytes → Bytes) (p : Bytes) :
+    ∃ c', setEchoIncPayloadAns { data := cid :: tail, count := cnt } "payload" (.bytes b) = .ok (.ok, c') ∧
+      c'.build eEcho = .ok (cid :: (b.take 241).map (fun x => (x + 1) % 256)) ∧
+      (∃ tail', c'.data = cid :: tail' ∧ tail'.length = 241) ∧
+      Spec.MacCmd.applySetter wrap "EchoIncPayloadAns" p "payload" (.bytes b) = some (none, (b.take 241).map (fun x => (x + 1) % 256)) :=
+  echo_payload_build cid tail ht cnt b wrap p
+
+/-- **McGroupStatusAnsCreator** on every reachable state (`GroupStatusInv`: 22 octets, `items` = bits set in AnsGroupMask; a fresh
+creator satisfies it): `push` refuses group ids outside AnsGroupMask and groups already reported and changes nothing
+(fix C19-0001), otherwise sets the mask bit and appends `id ‖ McAddr` after the items present, keeping the invariant;
+`nb_total_groups` writes `v mod 8` into its three bits and nothing else; `build()` is CID ‖ status ‖ items. No panic. -/
+theorem group_status_builder (c : Creator) (cid st : Nat) (area : Bytes) (inv : GroupStatusInv c cid st area) :
+    (∀ id addr, addr.length = 4 →
+      (id ≥ 4 ∨ (st &&& (1 <<< id) != 0) = true → setMcGroupStatusAns c "push" (.item id addr) = .ok (.err "InvalidIndex", c)) ∧
+      (id < 4 → (st &&& (1 <<< id) != 0) = false →
+        ∃ c', setMcGroupStatusAns c "push" (.item id addr) = .ok (.ok, c') ∧
+          GroupStatusInv c' cid (st ||| (1 <<< id)) (area.take (c.count * 5) ++ (id :: addr) ++ area.drop (c.count * 5 + 5)))) ∧
+    (∀ v, ∃ st', setMcGroupStatusAns c "nb_total_groups" (.n v) = .ok (.ok, { c with data := cid :: st' :: area }) ∧
+      GroupStatusInv { c with data := cid :: st' :: area } cid st' area ∧ st' &&& 15 = st &&& 15 ∧ (st' >>> 4) &&& 7 = v % 8) ∧
+    c.build eGroupStatus = .ok (cid :: st :: area.take (c.count * 5)) :=
+  ⟨fun id addr ha => push_ok c cid st area inv id addr ha, fun v => nb_total_groups_ok c cid st area inv v,
+   groupStatus_build c cid st area inv⟩
+
+theorem group_status_fresh : ∃ c, Creator.new eGroupStatus = .ok c ∧ GroupStatusInv c 1 0 (List.replicate 20 0) := groupStatus_new
 
 /-! ## DeviceTimeAns: the known finding -/
 
@@ -269,6 +303,9 @@ end C19
 #print axioms C19.setter_fields_disjoint_or_equal
 #print axioms C19.lemma_lengths_are_generated
 #print axioms C19.linkADRReq_step_roundtrip
+#print axioms C19.echo_builder
+#print axioms C19.group_status_builder
+#print axioms C19.group_status_fresh
 #print axioms C19.c19_devicetime_counterexample
 #print axioms C19.devicetime_partial
 #print axioms C19.parse_buildSeq
